@@ -62,7 +62,21 @@ def custom_defs():
 
 
 def wrap(g, mods):
+    from orquestra.quantum.circuits import _gates as G
+
     for m in mods:
+        if m.endswith("!"):
+            # the wrapper CLASS applied directly (public constructors): nestings the fluent API never produces
+            m = m[:-1]
+            if m == "dagger":
+                g = G.Dagger(g)
+            elif m.startswith("c"):
+                g = G.ControlledGate(g, int(m[1:]))
+            elif m.startswith("pow("):
+                g = G.Power(g, CS.parse_number(m[4:-1]))
+            elif m == "exp":
+                g = G.Exponential(g)
+            continue
         if m == "dagger":
             g = g.dagger
         elif m.startswith("c"):
@@ -368,6 +382,20 @@ def instances(tier, seed):
             base = rng.choice(["X", "S", "SX", "K_const", "Z"])
             nctl = sum(1 for m in mods if m == "c1")
             add([[base, [], list(mods), list(range(1 + nctl))], ["RX", [_prm("a", "plain")], [], [0]]], label=f"{base}|{'|'.join(mods)} (const) + RX(theta)", skip_unitary=("exp" in mods and "pow(0.5)" in mods))
+    # wrapper classes applied directly, in orders the fluent API never produces (it simplifies: dagger of a self-adjoint gate is
+    # the gate, dagger of a dagger is the gate, controls are merged, dagger is pushed inside controls and powers)
+    direct = [
+        ("X", ["dagger!"]), ("T", ["dagger!", "dagger!"]), ("T", ["c1!", "dagger!"]), ("S", ["exp!", "dagger!"]), ("T", ["c1!", "c2!"]), ("Z", ["pow(0.5)!", "dagger!"]),
+        ("SX", ["dagger!", "pow(2)!"]), ("S", ["dagger!", "exp!"]), ("K_const", ["dagger!", "c1!", "dagger!"]), ("X", ["c1!", "c1!", "dagger!"]), ("S", ["pow(2)!", "c1!", "pow(-1)!"]), ("H", ["dagger!", "c1"]),
+        ("Z", ["pow(0.5)", "dagger!", "c1!"]), ("T", ["dagger", "dagger!"]),
+    ]
+    for base, mods in direct:
+        nctl = sum(int(m.rstrip("!")[1:]) for m in mods if m.startswith("c"))
+        add([[base, [], list(mods), list(range(1 + nctl))], ["RX", [_prm("a", "plain")], [], [0]]], label=f"{base}|{'|'.join(mods)} (wrapper classes applied directly) + RX(theta)", skip_unitary=any(m.startswith("exp") for m in mods))
+    for base, mods in [("RY", ["dagger!", "dagger!"]), ("PHASE", ["c1!", "dagger!"]), ("U_custom", ["c1!", "c1!"]), ("RY", ["c1!", "dagger!", "c1!"])]:
+        npar = {"RY": 1, "PHASE": 1, "U_custom": 2}[base]
+        nctl = sum(int(m.rstrip("!")[1:]) for m in mods if m.startswith("c"))
+        add([[base, [_prm(["a", "2*a"][j % 2], "plain", j) for j in range(npar)], list(mods), list(range(1 + nctl))]], label=f"{base}|{'|'.join(mods)} (wrapper classes applied directly, symbolic)")
     # numbers as parameters (ground): exactness of Python numbers
     nums = [0.1, 1 / 3, 1e-7, 1e20, -2.5e-3, 3.141592653589793, 5, 0, -7, 0.30000000000000004, 123456.789, -0.0]
     for i in range(0, len(nums), 3):
